@@ -537,7 +537,8 @@ class SpecEval:
             for aa in args:
                 t = t[self.ev(aa).t]
             return SV(t, 'int')
-        d = self.V.contracts['defines'].get(name)
+        own_ = (self.V.contracts.get('defines_pkg') or {}).get(self.pkg, {}).get(name)
+        d = own_ if own_ is not None else self.V.contracts['defines'].get(name)
         if d is not None:
             params, ret, body = d
             if len(params) != len(args):
@@ -545,7 +546,7 @@ class SpecEval:
             env2 = {}
             # defines see only their parameters (plus globals), evaluated in the current heap; type names in a define
             # are those of the package whose contract file declares it
-            dpkg = (self.V.contracts.get('defpkg') or {}).get(name) or self.pkg
+            dpkg = self.pkg if own_ is not None else ((self.V.contracts.get('defpkg') or {}).get(name) or self.pkg)
             for (pn, pt), aa in zip(params, args):
                 v = self.ev(aa)
                 ty = resolve_type(w, pt, dpkg)
